@@ -130,6 +130,7 @@ def _cases(U):
     add('levicivita_symbol_down4', 'levicivita_symbol_down4', lambda: ((), {}, eps_symbol(4)))
     add('levicivita_down3', 'levicivita_down3', lambda: ((), {}, U['levicivita_down3']))
     add('levicivita_down4', 'levicivita_down4', lambda: ((), {}, U['levicivita_down4']))
+    add('null_vector_base', 'null_vector_base', lambda: ((), {}, tuple(U.null_vectors())))
     for direction in ['out', 'in']:
         def mk(direction=direction):
             f = rand_tensor(U, (), order=2)
